@@ -201,6 +201,66 @@ func runC10(r *ev.Run) {
 			r.Sample(map[string]any{"root": j.root.fen, "alphabet": j.root.alphabet, "depth": j.root.depth[ti]})
 		}
 	})
+	// long histories: hundreds of plies of deterministic shuffling over the same alphabets (the position
+	// recurs many times; the half-move clock runs far beyond 100)
+	var longSteps atomic.Int64
+	ev.Parallel(len(c10Roots), func(worker, item int) {
+		root := c10Roots[item]
+		allowed := c10Allowed(root.alphabet)
+		for variant := 0; variant < 3; variant++ {
+			p := refchess.MustFEN(root.fen)
+			rootRaw := p.Ep >= 0 && !p.EPCapturable()
+			b := eng.Load(&p)
+			keys := []refchess.Key{p.Key()}
+			var path []string
+			x := uint32(item*7 + variant*13 + 1)
+			for ply := 0; ply < ev.Pick(r, 300, 600); ply++ {
+				var buf [256]refchess.Move
+				var cand []refchess.Move
+				for _, m := range p.LegalMoves(buf[:0]) {
+					// reversible moves of the alphabet only: the line must stay long
+					pc := p.Sq[m.From]
+					if pc < 0 {
+						pc = -pc
+					}
+					if allowed[m.String()] && p.Sq[m.To] == 0 && pc != refchess.Pawn {
+						cand = append(cand, m)
+					}
+				}
+				if len(cand) == 0 {
+					break
+				}
+				x = x*1664525 + 1013904223
+				m := cand[int(x>>16)%len(cand)]
+				if variant == 0 {
+					m = cand[ply%len(cand)] // strictly periodic
+				}
+				b.MakeMove(move.Move(m.Enc()))
+				p = p.Make(m)
+				keys = append(keys, p.Key())
+				path = append(path, m.String())
+				longSteps.Add(1)
+				steps.Add(1)
+				want := c10Count(keys)
+				switch want {
+				case 2:
+					twos.Add(1)
+				case 3:
+					threes.Add(1)
+				}
+				if got := int(b.Threefold()); got != want {
+					cls := "count/long-history"
+					if rootRaw && keys[len(keys)-1] == keys[0] && got == want-1 {
+						cls = "count/root-fen-ep-not-capturable"
+					}
+					r.Fail(cls, c10Case{FEN: root.fen, Moves: append([]string(nil), path...), Via: "api"}, "%s after %d plies: Threefold()=%d, true count %d", root.fen, len(path), got, want)
+					break
+				}
+			}
+		}
+	})
+	r.Set("long_history_steps", longSteps.Load())
+
 	r.States.Store(steps.Load())
 	r.Transitions.Store(steps.Load())
 	r.Validated.Store(steps.Load())
